@@ -168,3 +168,7 @@ def run(ctx, res):
 def replay(case):
     why, opts, ds = judge(case["family"], case["input"])
     return bool(why), why or "faithful"
+
+
+def replay_task(case):
+    return product.replay_task(jsonspace.blocks(case.get("tier") or "quick"), visit, sweep.new_acc, case)
